@@ -394,7 +394,6 @@ func init() {
 	}
 }
 
-
 // ---- the control package's reflection API used in ways its documents do not: every case ends in an error or in the
 // result the ordinary route gives - never in a panic (spec/Growth.tla: ApiContract)
 
